@@ -49,7 +49,7 @@ impl Property for P {
     }
     fn cases(tier: Tier) -> u64 {
         match tier {
-            Tier::Quick => 6_000,
+            Tier::Quick => 20_000,
             Tier::Thorough => 200_000,
         }
     }
